@@ -308,7 +308,26 @@ func (g *gstate) setparams() Op {
 	if a == accGov {
 		g.enable = en
 	}
-	return Op{K: "setparams", A: a, Tax: p.Tax, Ratio: p.Ratio, Base: p.Base, Enable: en, Beacon: true}
+	// the fee denom: mostly the native symbol; sometimes another registered symbol (fees are then charged in that
+	// token), a name that is only a min unit, an unregistered name, an upper-case name (all three refused)
+	fd := stake
+	if len(g.toks) > 0 && g.r.Chance(1, 5) {
+		t := g.toks[g.r.Intn(len(g.toks))]
+		switch g.r.Intn(5) {
+		case 0, 1:
+			fd = t.sym
+			if g.r.Chance(1, 2) { // keep the fee payable by ordinary owners
+				p.Base = pick(g.r, "1", "7", "0")
+			}
+		case 2:
+			fd = t.min
+		case 3:
+			fd = g.freshSym()
+		default:
+			fd = Name{-1, 4}
+		}
+	}
+	return Op{K: "setparams", A: a, Tax: p.Tax, Ratio: p.Ratio, Base: p.Base, Sym: fd, Enable: en, Beacon: true}
 }
 
 func (g *gstate) malformed() Op {
